@@ -1,5 +1,6 @@
 import SafeNet.Proofs.ValidateData
 import SafeNet.Proofs.ValidateStore
+import SafeNet.Proofs.ValidateWorld
 /-!
 # C07 — mutable records never regress and hold only owner-signed content
 
@@ -28,6 +29,7 @@ theorem written_pad {d : Delivery} {a : Ans} {b : Bool} {n : Nat} {v : Bool}
   cases hc : d.content with
   | bad => simp [hc] at h
   | chunk id => simp [hc] at h
+  | chunkPre pre => simp [hc] at h
   | pad o n' v' => simp [hc] at h; exact ⟨o, by rw [h.1, h.2]⟩
   | txs l => simp [hc] at h
   | reg id base ops =>
@@ -44,6 +46,7 @@ theorem written_txs {d : Delivery} {a : Ans} {b : Bool} {l' : List Nat}
   cases hc : d.content with
   | bad => simp [hc] at h
   | chunk id => simp [hc] at h
+  | chunkPre pre => simp [hc] at h
   | pad o n' v' => simp [hc] at h
   | txs l =>
     have e : txOrdDerived = true := by decide
@@ -81,6 +84,7 @@ theorem lOk_same_kind {d : Delivery} {a : Ans} {c0 : Content} (hg : a.g = some (
   cases content with
   | bad => simp [obsOfAns] at h
   | chunk id => simp [obsOfAns] at h
+  | chunkPre pre => simp [obsOfAns] at h
   | pad o n v =>
     cases c0 <;> simp [obsOfAns, hg] at h
     exact Or.inl ⟨o, n, v, _, _, rfl, rfl⟩
@@ -1154,6 +1158,16 @@ theorem unacked_register_overwritten_witness :
     settled (runOps (fresh Gen.Store.maxRecordsCacheSize) ([sReg 0 [1]] ++ [sReg 0 [2], .run 0, .run 1, .ack 0, .ack 1])) = true := by
   decide +kernel
 
+/-- **K-f5 over the store, DEFAULT cache, validations never overlap**: the owner's scratchpad 3 is accepted and cached
+but not yet acknowledged — not in the index `RecordStoreHasKey` reads — so the chunk whose bytes are the owner's public
+key (same record key: addresses carry no kind tag) is stored as new and REPLACES it; the owner's version 5 is then
+refused, the store settles on the chunk. -/
+theorem unacked_pad_replaced_by_chunk_witness :
+    view (runOps (fresh 25) [sPad 1 0 3]) 1 = some (.pad 3 true) ∧
+    view (runOps (fresh 25) [sPad 1 0 3, .deliver (.plain ⟨false, .chunk, 1, .chunkPre 1, none⟩),
+      .run 0, .run 1, .ack 0, .ack 1, sPad 1 0 5]) 1 = some .chunk := by
+  decide +kernel
+
 theorem noRegisterOpLostOverStore_false : ¬ NoRegisterOpLostOverStore := by
   intro h
   obtain ⟨l', hg, hx⟩ := h Gen.Store.maxRecordsCacheSize [sReg 0 [1]] [sReg 0 [2], .run 0, .run 1, .ack 0, .ack 1] 2 1 false [1]
@@ -1408,9 +1422,15 @@ theorem put_any_key {d : Delivery} {a : Ans} {k : Nat} {c : Content}
   · exact Or.inl h
   · exact Or.inr h
 
-/-- chunks and registers never go to an owner key (`3·o + 1`) -/
+/-- **The named hypothesis of K-f5 (chunk side)**: no delivery is a chunk whose BYTES are address preimage `k` —
+for `k = 3·o + 1` the 48 public-key bytes of owner `o`, for `k = 3·r + 2` register `r`'s `meta ‖ pk`.  Such a chunk
+has the very record key of that owner's scratchpad / transaction set / register: addresses carry no kind tag. -/
+def NoChunkSquat (k : Nat) (ds : List Delivery) : Prop := ∀ d ∈ ds, d.content ≠ .chunkPre k
+
+/-- registers never go to an owner key (`3·o + 1`), and chunks only when their bytes are that owner's public key -/
 theorem rwKey_chunk_reg {d : Delivery} (hf : contentFam d.content = some (kindFam d.kind))
-    (h03 : kindFam d.kind = 0 ∨ kindFam d.kind = 3) (o : Nat) : rwKey d ≠ 3 * o + 1 := by
+    (h03 : kindFam d.kind = 0 ∨ kindFam d.kind = 3) (o : Nat) (hns : d.content ≠ .chunkPre (3 * o + 1)) :
+    rwKey d ≠ 3 * o + 1 := by
   obtain ⟨client, kind, rk, content, pay⟩ := d
   simp only at hf h03
   cases content with
@@ -1419,6 +1439,11 @@ theorem rwKey_chunk_reg {d : Delivery} (hf : contentFam d.content = some (kindFa
     simp only [contentFam, Option.some.injEq] at hf
     have hk : kind = .chunk ∨ kind = .chunkp := by cases kind <;> simp [kindFam] at hf <;> simp
     rcases hk with rfl | rfl <;> cases client <;> simp [rwKey, route, clientRoute, replRoute, derivedKey] <;> omega
+  | chunkPre pre =>
+    simp only [contentFam, Option.some.injEq] at hf
+    have hk : kind = .chunk ∨ kind = .chunkp := by cases kind <;> simp [kindFam] at hf <;> simp
+    have hp : pre ≠ 3 * o + 1 := by intro h; subst h; exact hns rfl
+    rcases hk with rfl | rfl <;> cases client <;> simpa [rwKey, route, clientRoute, replRoute, derivedKey] using hp
   | pad o' n v =>
     simp only [contentFam, Option.some.injEq] at hf
     rcases h03 with h | h <;> omega
@@ -1443,11 +1468,12 @@ theorem obs_tx_lOk {d : Delivery} {a : Ans} {l : List TxD} (hc : d.content = .tx
 /-- whatever `RecordStoreHasKey` said: a put over an owner key whose local read returned a scratchpad is a validly
 signed scratchpad with a strictly higher counter -/
 theorem put_over_pad_any {d : Delivery} {a : Ans} {o m : Nat} {vm : Bool} {c : Content}
+    (hns : d.content ≠ .chunkPre (3 * o + 1))
     (hW : Tok.W (3 * o + 1) c ∈ (tr d.client d.kind (obsOfAns d a)).map (inst d a))
     (hg : a.g = some (some (.pad m vm))) : ∃ n, c = .pad n true ∧ m < n := by
   obtain ⟨hk, hf, hw, hwr⟩ := put_any_key hW
   rcases kindFam_cases d.kind with h | h | h | h
-  · exact absurd hk.symm (rwKey_chunk_reg hf (Or.inl h) o)
+  · exact absurd hk.symm (rwKey_chunk_reg hf (Or.inl h) o hns)
   · -- a scratchpad delivery
     have hc : ∃ o' n v, d.content = .pad o' n v := by
       rw [h] at hf
@@ -1473,16 +1499,17 @@ theorem put_over_pad_any {d : Delivery} {a : Ans} {o m : Nat} {vm : Bool} {c : C
     rcases hp.1.2 with h1 | h1
     · rw [hl] at h1; cases h1
     · rw [hlo] at h1; cases h1
-  · exact absurd hk.symm (rwKey_chunk_reg hf (Or.inr h) o)
+  · exact absurd hk.symm (rwKey_chunk_reg hf (Or.inr h) o hns)
 
 /-- whatever `RecordStoreHasKey` said: a put over an owner key whose local read returned a transaction set is a
 transaction set containing it -/
 theorem put_over_txs_any {d : Delivery} {a : Ans} {o : Nat} {l : List Nat} {c : Content}
+    (hns : d.content ≠ .chunkPre (3 * o + 1))
     (hW : Tok.W (3 * o + 1) c ∈ (tr d.client d.kind (obsOfAns d a)).map (inst d a))
     (hg : a.g = some (some (.txs l))) : ∃ l', c = .txs l' ∧ ∀ x ∈ l, x ∈ l' := by
   obtain ⟨hk, hf, hw, hwr⟩ := put_any_key hW
   rcases kindFam_cases d.kind with h | h | h | h
-  · exact absurd hk.symm (rwKey_chunk_reg hf (Or.inl h) o)
+  · exact absurd hk.symm (rwKey_chunk_reg hf (Or.inl h) o hns)
   · -- a scratchpad delivery: refused, the local copy is not a scratchpad
     exfalso
     have hc : ∃ o' n v, d.content = .pad o' n v := by
@@ -1518,13 +1545,16 @@ theorem put_over_txs_any {d : Delivery} {a : Ans} {o : Nat} {l : List Nat} {c : 
     rw [hl', mem_union, hg]
     simp only [Option.getD_some, e, if_true]
     exact Or.inr hx
-  · exact absurd hk.symm (rwKey_chunk_reg hf (Or.inr h) o)
+  · exact absurd hk.symm (rwKey_chunk_reg hf (Or.inr h) o hns)
 
 /-- **`_partial` under the weaker hypothesis `ReadsLastWrite` (every validation starts when its key is still
-cached or has nothing in flight; below capacity): the stored scratchpad counter never decreases and the
-signature stays valid**, observed at points where the key is readable in that sense. -/
+cached or has nothing in flight; below capacity) and `NoChunkSquat`: the stored scratchpad counter never decreases
+and the signature stays valid**, observed at points where the key is readable in that sense.  `NoChunkSquat` is
+needed: `RecordStoreHasKey` reads the index, so a cached, not yet acknowledged scratchpad is REPLACED by a chunk
+whose bytes are the owner's public key (`unacked_pad_replaced_by_chunk_witness`). -/
 theorem store_scratchpad_never_regresses_cached_partial (cache : Nat) (pre post : List Op) (o m : Nat)
     (hd : ReadsLastWrite (fresh cache) (pre ++ post))
+    (hns : NoChunkSquat (3 * o + 1) (ValidateStore.deliveriesOf post))
     (hr1 : Readable (runOps (fresh cache) pre) (3 * o + 1))
     (hr2 : Readable (runOps (fresh cache) (pre ++ post)) (3 * o + 1))
     (hv : view (runOps (fresh cache) pre) (3 * o + 1) = some (.pad m true)) :
@@ -1533,24 +1563,25 @@ theorem store_scratchpad_never_regresses_cached_partial (cache : Nat) (pre post 
   obtain ⟨w1, s1, hrel1, _⟩ := ValidateStore.runOps_inv (fun _ => True) (fun _ _ _ _ _ => trivial) pre
     (ValidateStore.rel_fresh cache) hd1 trivial
   rw [ValidateStore.view_of_readable hrel1 _ hr1] at hv
-  obtain ⟨w2, s2, hrel2, m', hle, hg⟩ := ValidateStore.runOps_inv
+  obtain ⟨w2, s2, hrel2, m', hle, hg⟩ := ValidateStore.runOps_invQ (fun d => d.content ≠ .chunkPre (3 * o + 1))
     (fun s => ∃ m', m ≤ m' ∧ s.get (3 * o + 1) = some (.pad m' true))
     (by
-      intro vs s dx ⟨m1, hle1, hg1⟩ hview
+      intro vs s dx hq ⟨m1, hle1, hg1⟩ hview
       rcases applyToks_get (ValidateStore.validateS vs dx.d).2 s (3 * o + 1) with h | ⟨c, hm, hgc⟩
       · exact ⟨m1, hle1, by rw [h, hg1]⟩
       · have hk : 3 * o + 1 = rwKey dx.d := (W_mem_inv hm).1
         have hga : (ValidateStore.ansOf vs dx.d).g = some (some (.pad m1 true)) := by
           simp only [ValidateStore.ansOf]; rw [hview, ← hk, hg1]
-        obtain ⟨n, rfl, hlt⟩ := put_over_pad_any hm hga
+        obtain ⟨n, rfl, hlt⟩ := put_over_pad_any hq hm hga
         exact ⟨n, by omega, hgc⟩)
-    post hrel1 hd2 ⟨m, Nat.le_refl _, hv⟩
+    post hrel1 hd2 hns ⟨m, Nat.le_refl _, hv⟩
   rw [ValidateStore.runOps_append, ValidateStore.view_of_readable hrel2 _ (by rw [← ValidateStore.runOps_append]; exact hr2)]
   exact ⟨m', hle, hg⟩
 
 /-- **… and a stored transaction is never lost.** -/
 theorem store_transactions_never_lost_cached_partial (cache : Nat) (pre post : List Op) (o : Nat) (l : List Nat)
     (hd : ReadsLastWrite (fresh cache) (pre ++ post))
+    (hns : NoChunkSquat (3 * o + 1) (ValidateStore.deliveriesOf post))
     (hr1 : Readable (runOps (fresh cache) pre) (3 * o + 1))
     (hr2 : Readable (runOps (fresh cache) (pre ++ post)) (3 * o + 1))
     (hv : view (runOps (fresh cache) pre) (3 * o + 1) = some (.txs l)) :
@@ -1559,22 +1590,357 @@ theorem store_transactions_never_lost_cached_partial (cache : Nat) (pre post : L
   obtain ⟨w1, s1, hrel1, _⟩ := ValidateStore.runOps_inv (fun _ => True) (fun _ _ _ _ _ => trivial) pre
     (ValidateStore.rel_fresh cache) hd1 trivial
   rw [ValidateStore.view_of_readable hrel1 _ hr1] at hv
-  obtain ⟨w2, s2, hrel2, l', hg, hsub⟩ := ValidateStore.runOps_inv
+  obtain ⟨w2, s2, hrel2, l', hg, hsub⟩ := ValidateStore.runOps_invQ (fun d => d.content ≠ .chunkPre (3 * o + 1))
     (fun s => ∃ l', s.get (3 * o + 1) = some (.txs l') ∧ ∀ x ∈ l, x ∈ l')
     (by
-      intro vs s dx ⟨l1, hg1, hs1⟩ hview
+      intro vs s dx hq ⟨l1, hg1, hs1⟩ hview
       rcases applyToks_get (ValidateStore.validateS vs dx.d).2 s (3 * o + 1) with h | ⟨c, hm, hgc⟩
       · exact ⟨l1, by rw [h, hg1], hs1⟩
       · have hk : 3 * o + 1 = rwKey dx.d := (W_mem_inv hm).1
         have hga : (ValidateStore.ansOf vs dx.d).g = some (some (.txs l1)) := by
           simp only [ValidateStore.ansOf]; rw [hview, ← hk, hg1]
-        obtain ⟨l2, rfl, hs2⟩ := put_over_txs_any hm hga
+        obtain ⟨l2, rfl, hs2⟩ := put_over_txs_any hq hm hga
         exact ⟨l2, hgc, fun x hx => hs2 x (hs1 x hx)⟩)
-    post hrel1 hd2 ⟨l, hv, fun x hx => hx⟩
+    post hrel1 hd2 hns ⟨l, hv, fun x hx => hx⟩
   rw [ValidateStore.runOps_append, ValidateStore.view_of_readable hrel2 _ (by rw [← ValidateStore.runOps_append]; exact hr2)]
   exact ⟨l', hg, hsub⟩
 
 end Cached
+
+
+/-! ## K-f5: record keys carry no kind tag — a Chunk can take an owner-derived key
+
+`NetworkAddress::to_record_key` maps a chunk address (SHA3-256 of the chunk's bytes), a scratchpad and a transaction
+address (SHA3-256 of the 48 owner public-key bytes) and a register address (SHA3-256 of `meta ‖ pk`) to the same bare
+32 bytes.  A PAID chunk whose value is exactly an owner's public key (public: it is in the outputs of every parent
+transaction) — or a register's `meta ‖ pk` — is therefore accepted and stored under that owner's scratchpad /
+transaction (register) key, as `RecordType::Chunk`; so is the same chunk arriving by replication.  From then on the
+local read of every validation of that key returns the chunk: a scratchpad and a register fail to decode it (`parse`),
+a transaction set meets the wrong header kind (`kindMismatch`) — on the paid, unpaid and replication paths alike, the
+payment of a paid upload being taken first.  The owner's validly signed records are never stored on that node.
+
+C04 is not affected: every record still sits under the key its own content determines (the chunk under the hash of
+its bytes).  What fails is C07's "the stored version is the highest validly signed version delivered" / "the union of
+all validly signed transactions (operations) delivered", for keys the node did not hold.  Full statements below,
+refuted on concrete histories (replayed on the real node by `./check`), proved under `NoCrossKindSquat`.  The same
+exception was known for the scratchpad / transaction pair of one owner (which share a key by design); the theorems
+now name the general cause.  Repair = domain-separated addresses (a kind tag under the hash): wire format, not small. -/
+section CrossKindSquat
+
+def goodPay : PayD :=
+  ⟨[⟨0, 0, true, true, true, true, 5⟩, ⟨1, 1, true, true, true, true, 2⟩, ⟨2, 2, true, true, true, true, 3⟩], [0, 1, 2]⟩
+
+/-- a fully PAID client upload of the chunk whose bytes are address preimage `k` -/
+def squat (k : Nat) : Delivery := ⟨true, .chunkp, k, .chunkPre k, some goodPay⟩
+/-- the same chunk arriving by replication -/
+def squatRepl (k : Nat) : Delivery := ⟨false, .chunk, k, .chunkPre k, none⟩
+
+/-- **The named hypothesis of K-f5**: every delivery of the history that reads and writes key `k` carries content of
+family `fam` (1 scratchpad, 2 transaction set, 3 register): no chunk whose bytes are that key's preimage, and — for an
+owner key — not the other owner-keyed kind. -/
+def NoCrossKindSquat (k fam : Nat) (ds : List Delivery) : Prop :=
+  ∀ d ∈ ds, rwKey d = k → contentFam d.content = some fam
+
+/-- **Full strength** (C07, scratchpads, a key not held): after any serial history the owner's key holds a validly
+signed scratchpad at least as high as every validly signed version that arrived replicated or fully paid -/
+def HighestValidPadKept : Prop :=
+  ∀ (s : Store) (ds : List Delivery) (o n : Nat) (d : Delivery) (ha : PadArrives o n d),
+    s.get (3 * o + 1) = none → d ∈ ds → ha.fresh = true →
+    ∃ M, (runSerial s ds).get (3 * o + 1) = some (.pad M true) ∧ n ≤ M
+
+/-- **Full strength** (transactions, a key not held): a validly signed transaction replicated for its owner's key is
+in the stored set afterwards -/
+def ValidTransactionsKept : Prop :=
+  ∀ (s : Store) (ds : List Delivery) (o t : Nat),
+    s.get (3 * o + 1) = none → txVec (3 * o + 1) [⟨o, t, true⟩] ∈ ds → t ∈ localTxs (runSerial s ds) (3 * o + 1)
+
+/-- **Full strength** (registers, a key not held): a permitted operation of a replicated register that verifies is
+in the stored register afterwards -/
+def ValidRegisterKept : Prop :=
+  ∀ (s : Store) (ds : List Delivery) (id x : Nat),
+    s.get (3 * id + 2) = none → regVec id .good [⟨x, .v⟩] ∈ ds →
+    ∃ alt l, (runSerial s ds).get (3 * id + 2) = some (.reg alt l) ∧ x ∈ l
+
+/-- **Witness (scratchpad / transaction key)**: nothing held; a paid chunk whose bytes are owner 0's public key is
+stored at key 1; then the owner's scratchpad is refused on the paid (payment taken: `P 5`), unpaid and replication
+paths, and so are the owner's transactions; the store keeps the chunk. -/
+theorem chunk_squats_owner_key_witness :
+    validate (squat 1) [] = (.ok, [.H 1, .K, .V, .P 5, .W 1 .chunk, .F 1 .c, .R 1 .c]) ∧
+    validate ⟨true, .padp, 1, .pad 0 3 true, some goodPay⟩ [(1, .chunk)] = (.parse, [.H 1, .K, .V, .P 5, .G 1]) ∧
+    validate ⟨true, .pad, 1, .pad 0 3 true, none⟩ [(1, .chunk)] = (.parse, [.H 1, .G 1]) ∧
+    validate (upd 3) [(1, .chunk)] = (.parse, [.G 1]) ∧
+    validate ⟨true, .txp, 1, .txs [⟨0, 1, true⟩], some goodPay⟩ [(1, .chunk)] = (.kindMismatch, [.H 1, .K, .V, .P 5, .G 1]) ∧
+    validate (txd 1) [(1, .chunk)] = (.kindMismatch, [.G 1]) ∧
+    runSerial [] [squat 1, ⟨true, .padp, 1, .pad 0 3 true, some goodPay⟩, upd 3, txd 1] = [(1, .chunk)] ∧
+    runSerial [] [squatRepl 1, upd 3, txd 1] = [(1, .chunk)] := by
+  decide
+
+/-- **Witness (register key)**: the chunk whose bytes are register 0's `meta ‖ pk` takes key 2; the register is
+refused on every path. -/
+theorem chunk_squats_register_key_witness :
+    validate (squat 2) [] = (.ok, [.H 2, .K, .V, .P 5, .W 2 .chunk, .F 2 .c, .R 2 .c]) ∧
+    validate ⟨true, .regp, 2, .reg 0 .good [⟨1, .v⟩], some goodPay⟩ [(2, .chunk)] = (.parse, [.H 2, .K, .V, .P 5, .H 2, .G 2]) ∧
+    validate ⟨true, .reg, 2, .reg 0 .good [⟨1, .v⟩], none⟩ [(2, .chunk)] = (.parse, [.H 2, .H 2, .G 2]) ∧
+    validate (regVec 0 .good [⟨1, .v⟩]) [(2, .chunk)] = (.parse, [.H 2, .G 2]) ∧
+    runSerial [] [squat 2, regVec 0 .good [⟨1, .v⟩]] = [(2, .chunk)] := by
+  decide
+
+/-- **The reverse**: the owner's scratchpad is held; the chunk whose bytes are the owner's key is "already there" —
+`ok`, the payment taken, nothing stored (C04 intact: the pad is never replaced), and the key is announced for
+replication as a Chunk although a scratchpad is held. -/
+theorem chunk_upload_at_held_pad_witness :
+    validate (squat 1) [(1, .pad 3 true)] = (.ok, [.H 1, .K, .V, .P 5, .F 1 .c, .R 1 .c]) ∧
+    validate (squatRepl 1) [(1, .pad 3 true)] = (.ok, [.H 1]) ∧
+    validate (squatRepl 1) [(1, .txs [1])] = (.ok, [.H 1]) ∧
+    validate (squatRepl 2) [(2, .reg false [1])] = (.ok, [.H 2]) := by
+  decide
+
+theorem highestValidPadKept_false : ¬ HighestValidPadKept := by
+  intro h
+  obtain ⟨M, hM, _⟩ := h [] [squat 1, upd 3] 0 3 (upd 3) .repl rfl (by simp) rfl
+  have hc : (runSerial [] [squat 1, upd 3]).get (3 * 0 + 1) = some .chunk := by decide
+  rw [hc] at hM
+  cases hM
+
+theorem validTransactionsKept_false : ¬ ValidTransactionsKept := by
+  intro h
+  have := h [] [squat 1, txVec (3 * 0 + 1) [⟨0, 1, true⟩]] 0 1 rfl (by simp)
+  revert this
+  decide
+
+theorem validRegisterKept_false : ¬ ValidRegisterKept := by
+  intro h
+  obtain ⟨alt, l, hg, _⟩ := h [] [squat 2, regVec 0 .good [⟨1, .v⟩]] 0 1 rfl (by simp)
+  have hc : (runSerial [] [squat 2, regVec 0 .good [⟨1, .v⟩]]).get (3 * 0 + 2) = some .chunk := by decide
+  rw [hc] at hg
+  cases hg
+
+/-- under the hypothesis, a put at `k` carries content of the family the key is reserved for -/
+theorem squat_free_put {d : Delivery} {s : Store} {k fam : Nat} {c : Content}
+    (hns : rwKey d = k → contentFam d.content = some fam) (hW : Tok.W k c ∈ (validate d s).2) : c.fam = fam := by
+  rw [validate_trace] at hW
+  obtain ⟨hk, _, _, hwr⟩ := put_any_key hW
+  have hf := hns hk.symm
+  rcases hwr with h | h <;> rw [h] <;> exact written_fam d _ _ fam hf
+
+theorem squat_free_step_pad {d : Delivery} {s : Store} {o : Nat}
+    (hns : rwKey d = 3 * o + 1 → contentFam d.content = some 1)
+    (hinv : s.get (3 * o + 1) = none ∨ ∃ m, s.get (3 * o + 1) = some (.pad m true)) :
+    (deliverSeq s d).get (3 * o + 1) = none ∨ ∃ m, (deliverSeq s d).get (3 * o + 1) = some (.pad m true) := by
+  unfold deliverSeq
+  rcases applyToks_get (validate d s).2 s (3 * o + 1) with h | ⟨c, hm, hg⟩
+  · rw [h]; exact hinv
+  · right
+    have hf := squat_free_put hns hm
+    cases c with
+    | pad n v =>
+      obtain ⟨hv, _⟩ := stored_scratchpad_valid d s _ n v hm
+      subst hv
+      exact ⟨n, hg⟩
+    | chunk => simp [Content.fam] at hf
+    | txs l => simp [Content.fam] at hf
+    | reg a l => simp [Content.fam] at hf
+
+/-- **`_partial` (scratchpads), named hypothesis `NoCrossKindSquat`**: per-key serialisation, the owner's key not
+held (or holding a validly signed scratchpad), and nothing but scratchpads delivered for that key — then the key ends
+up holding a validly signed scratchpad at least as high as every validly signed version that arrived replicated or
+fully paid. -/
+theorem highest_valid_pad_kept_partial (ds : List Delivery) (s : Store) (o n : Nat) (d : Delivery)
+    (ha : PadArrives o n d)
+    (hinv : s.get (3 * o + 1) = none ∨ ∃ m, s.get (3 * o + 1) = some (.pad m true))
+    (hns : NoCrossKindSquat (3 * o + 1) 1 ds) (hd : d ∈ ds) (hf : ha.fresh = true) :
+    ∃ M, (runSerial s ds).get (3 * o + 1) = some (.pad M true) ∧ n ≤ M := by
+  induction ds generalizing s with
+  | nil => cases hd
+  | cons d0 rest ih =>
+    have hns0 := hns d0 (List.mem_cons_self ..)
+    have hnsr : NoCrossKindSquat (3 * o + 1) 1 rest := fun d' h' => hns d' (List.mem_cons_of_mem _ h')
+    have hinv' := squat_free_step_pad hns0 hinv
+    rcases List.mem_cons.mp hd with rfl | hd
+    · have hnow : ∃ m1, n ≤ m1 ∧ (deliverSeq s d).get (3 * o + 1) = some (.pad m1 true) := by
+        rcases hinv with hnone | ⟨m, hm⟩
+        · exact ⟨n, Nat.le_refl _, pad_arrives_applied ha s (Or.inl ⟨hnone, hf⟩)⟩
+        · by_cases hlt : m < n
+          · exact ⟨n, Nat.le_refl _, pad_arrives_applied ha s (Or.inr ⟨m, true, hm, hlt⟩)⟩
+          · obtain ⟨m1, h1, hg1⟩ := deliverSeq_monotone d s _ m hm
+            exact ⟨m1, by omega, hg1⟩
+      obtain ⟨m1, hle, hg1⟩ := hnow
+      obtain ⟨M, hle2, hg⟩ := serial_scratchpad_never_regresses_partial rest (deliverSeq s d) _ m1 hg1
+      exact ⟨M, hg, by omega⟩
+    · exact ih (deliverSeq s d0) hinv' hnsr hd
+
+theorem squat_free_step_txs {d : Delivery} {s : Store} {k : Nat}
+    (hns : rwKey d = k → contentFam d.content = some 2)
+    (hinv : s.get k = none ∨ ∃ l, s.get k = some (.txs l)) :
+    (deliverSeq s d).get k = none ∨ ∃ l, (deliverSeq s d).get k = some (.txs l) := by
+  unfold deliverSeq
+  rcases applyToks_get (validate d s).2 s k with h | ⟨c, hm, hg⟩
+  · rw [h]; exact hinv
+  · right
+    have hf := squat_free_put hns hm
+    cases c with
+    | txs l => exact ⟨l, hg⟩
+    | chunk => simp [Content.fam] at hf
+    | pad n v => simp [Content.fam] at hf
+    | reg a l => simp [Content.fam] at hf
+
+/-- a validly signed transaction replicated to its owner's key, not held: stored -/
+theorem replicated_tx_applied_fresh (s : Store) (o t : Nat) (hnone : s.get (3 * o + 1) = none) :
+    (deliverSeq s (txVec (3 * o + 1) [⟨o, t, true⟩])).get (3 * o + 1) = some (.txs [t]) := by
+  have e1 : txFiltersInvalid = true := by decide
+  have e2 : txFiltersForeign = true := by decide
+  have e3 : txMergesLocal = true := by decide
+  simp [deliverSeq, validate, seqAns, txVec, rwKey, route, replRoute, hnone, obsOfAns, parseOk,
+    contentFam, kindFam, isPaid, skel, storeTx, rej, Out.trace, e1, e2, e3, applyToks, inst,
+    txValid, txForKey, written, get_put_same, union, insertSorted]
+
+/-- **`_partial` (transactions), named hypothesis `NoCrossKindSquat`** -/
+theorem valid_transactions_kept_partial (ds : List Delivery) (s : Store) (o t : Nat)
+    (hinv : s.get (3 * o + 1) = none ∨ ∃ l, s.get (3 * o + 1) = some (.txs l))
+    (hns : NoCrossKindSquat (3 * o + 1) 2 ds) (hd : txVec (3 * o + 1) [⟨o, t, true⟩] ∈ ds) :
+    t ∈ localTxs (runSerial s ds) (3 * o + 1) := by
+  induction ds generalizing s with
+  | nil => cases hd
+  | cons d0 rest ih =>
+    have hns0 := hns d0 (List.mem_cons_self ..)
+    have hnsr : NoCrossKindSquat (3 * o + 1) 2 rest := fun d' h' => hns d' (List.mem_cons_of_mem _ h')
+    have hinv' := squat_free_step_txs hns0 hinv
+    rcases List.mem_cons.mp hd with rfl | hd
+    · have hnow : ∃ l1, (deliverSeq s (txVec (3 * o + 1) [⟨o, t, true⟩])).get (3 * o + 1) = some (.txs l1) ∧ t ∈ l1 := by
+        rcases hinv with hnone | ⟨l, hl⟩
+        · exact ⟨[t], replicated_tx_applied_fresh s o t hnone, by simp⟩
+        · obtain ⟨l1, hg1, hm1⟩ := replicated_txs_applied s (3 * o + 1) [⟨o, t, true⟩] l hl
+          exact ⟨l1, hg1, (hm1 t).mpr (Or.inr (by simp [validFor]))⟩
+      obtain ⟨l1, hg1, ht⟩ := hnow
+      obtain ⟨l2, hg2, hsub⟩ := serial_transactions_never_lost_partial rest _ _ l1 hg1
+      show t ∈ localTxs (runSerial (deliverSeq s (txVec (3 * o + 1) [⟨o, t, true⟩])) rest) (3 * o + 1)
+      rw [localTxs, hg2]
+      exact hsub t ht
+    · exact ih (deliverSeq s d0) hinv' hnsr hd
+
+end CrossKindSquat
+
+/-! ## Removal of a held record (capacity prune, `cleanup_irrelevant_records`, `RemoveFailedLocalRecord`)
+
+The node keeps no memory of a key it dropped.  A history is a list of deliveries, each processed alone, and removals
+of keys placed anywhere between them.  Reading taken of C07: "for any sequence of updates reaching a node … the stored
+version is the highest validly signed version delivered" is a statement about the whole sequence, and it is FALSE
+across a removal: scratchpad 7 held, pruned, then 5 replicated in from a lagging peer is stored as a first arrival
+(K-f6).  Under `NoRemoval k` every sequential theorem above carries over unchanged. -/
+section Removal
+
+inductive HOp
+  | deliver (d : Delivery)
+  | evict (k : Nat)
+deriving DecidableEq, Repr
+
+def stepH (s : Store) : HOp → Store
+  | .deliver d => deliverSeq s d
+  | .evict k => s.remove k
+
+def runHist (s : Store) (ops : List HOp) : Store := ops.foldl stepH s
+
+/-- **The named hypothesis**: the history never drops key `k` -/
+def NoRemoval (k : Nat) (ops : List HOp) : Prop := ∀ op ∈ ops, op ≠ .evict k
+
+/-- **Full strength**: in every history of non-overlapping validations and removals, a scratchpad counter the store
+has shown is never undercut by a later stored version -/
+def StoredCounterNeverDecreasesAcrossRemoval : Prop :=
+  ∀ (s : Store) (pre post : List HOp) (k m m' : Nat) (v : Bool),
+    (runHist s pre).get k = some (.pad m true) → (runHist s (pre ++ post)).get k = some (.pad m' v) → m ≤ m'
+
+/-- **Witness**: 7 held; the record is dropped; 5 arrives by replication and is stored -/
+theorem evicted_then_lower_accepted_witness :
+    (runHist [(1, .pad 3 true)] [.deliver (upd 7)]).get 1 = some (.pad 7 true) ∧
+    (runHist [(1, .pad 3 true)] [.deliver (upd 7), .evict 1, .deliver (upd 5)]).get 1 = some (.pad 5 true) ∧
+    validate (upd 5) [] = (.ok, [.G 1, .W 1 (.pad 5 true)]) := by
+  decide
+
+theorem storedCounterNeverDecreasesAcrossRemoval_false : ¬ StoredCounterNeverDecreasesAcrossRemoval := by
+  intro h
+  have := h [(1, .pad 3 true)] [.deliver (upd 7)] [.evict 1, .deliver (upd 5)] 1 7 5 true
+    evicted_then_lower_accepted_witness.1 evicted_then_lower_accepted_witness.2.1
+  omega
+
+/-- the same for a transaction set: {1,2} held, dropped, {3} replicated in: 1 and 2 are gone -/
+theorem evicted_then_set_restarts_witness :
+    (runHist [(1, .txs [1, 2])] [.evict 1, .deliver (txd 3)]).get 1 = some (.txs [3]) := by
+  decide
+
+theorem runHist_append (s : Store) (a b : List HOp) : runHist s (a ++ b) = runHist (runHist s a) b := by
+  simp [runHist, List.foldl_append]
+
+/-- **`_partial`, named hypothesis `NoRemoval k`**: removals of OTHER keys anywhere, key `k` never dropped — a
+stored scratchpad never regresses and stays validly signed -/
+theorem hist_scratchpad_never_regresses_partial (pre post : List HOp) (s : Store) (k m : Nat)
+    (hnr : NoRemoval k post) (hheld : (runHist s pre).get k = some (.pad m true)) :
+    ∃ m', m ≤ m' ∧ (runHist s (pre ++ post)).get k = some (.pad m' true) := by
+  rw [runHist_append]
+  generalize runHist s pre = s1 at hheld
+  induction post generalizing s1 m with
+  | nil => exact ⟨m, Nat.le_refl _, hheld⟩
+  | cons op rest ih =>
+    have hnr' : NoRemoval k rest := fun op' h' => hnr op' (List.mem_cons_of_mem _ h')
+    cases op with
+    | deliver d =>
+      obtain ⟨m1, h1, hg1⟩ := deliverSeq_monotone d s1 k m hheld
+      obtain ⟨m2, h2, hg2⟩ := ih (hnr := hnr') (hheld := hg1)
+      exact ⟨m2, Nat.le_trans h1 h2, hg2⟩
+    | evict k' =>
+      have hne : k ≠ k' := by
+        intro he; subst he; exact hnr (.evict k) (List.mem_cons_self ..) rfl
+      have hg1 : (s1.remove k').get k = some (.pad m true) := by rw [Store.get_remove, if_neg hne]; exact hheld
+      exact ih (hnr := hnr') (hheld := hg1)
+
+/-- … and a stored transaction is never lost -/
+theorem hist_transactions_never_lost_partial (pre post : List HOp) (s : Store) (k : Nat) (l : List Nat)
+    (hnr : NoRemoval k post) (hheld : (runHist s pre).get k = some (.txs l)) :
+    ∃ l', (runHist s (pre ++ post)).get k = some (.txs l') ∧ ∀ x ∈ l, x ∈ l' := by
+  rw [runHist_append]
+  generalize runHist s pre = s1 at hheld
+  induction post generalizing s1 l with
+  | nil => exact ⟨l, hheld, fun x hx => hx⟩
+  | cons op rest ih =>
+    have hnr' : NoRemoval k rest := fun op' h' => hnr op' (List.mem_cons_of_mem _ h')
+    cases op with
+    | deliver d =>
+      obtain ⟨l1, hg1, h1⟩ := deliverSeq_txs_monotone d s1 k l hheld
+      obtain ⟨l2, hg2, h2⟩ := ih (hnr := hnr') (hheld := hg1)
+      exact ⟨l2, hg2, fun x hx => h2 x (h1 x hx)⟩
+    | evict k' =>
+      have hne : k ≠ k' := by
+        intro he; subst he; exact hnr (.evict k) (List.mem_cons_self ..) rfl
+      have hg1 : (s1.remove k').get k = some (.txs l) := by rw [Store.get_remove, if_neg hne]; exact hheld
+      exact ih (hnr := hnr') (hheld := hg1)
+
+/-- … and a stored register operation is never lost -/
+theorem hist_register_never_lost_partial (pre post : List HOp) (s : Store) (k : Nat) (alt : Bool) (l : List Nat)
+    (hnr : NoRemoval k post) (hheld : (runHist s pre).get k = some (.reg alt l)) :
+    ∃ l', (runHist s (pre ++ post)).get k = some (.reg alt l') ∧ ∀ x ∈ l, x ∈ l' := by
+  rw [runHist_append]
+  generalize runHist s pre = s1 at hheld
+  induction post generalizing s1 l with
+  | nil => exact ⟨l, hheld, fun x hx => hx⟩
+  | cons op rest ih =>
+    have hnr' : NoRemoval k rest := fun op' h' => hnr op' (List.mem_cons_of_mem _ h')
+    cases op with
+    | deliver d =>
+      obtain ⟨l1, hg1, h1⟩ := deliverSeq_reg_monotone d s1 k alt l hheld
+      obtain ⟨l2, hg2, h2⟩ := ih (hnr := hnr') (hheld := hg1)
+      exact ⟨l2, hg2, fun x hx => h2 x (h1 x hx)⟩
+    | evict k' =>
+      have hne : k ≠ k' := by
+        intro he; subst he; exact hnr (.evict k) (List.mem_cons_self ..) rfl
+      have hg1 : (s1.remove k').get k = some (.reg alt l) := by rw [Store.get_remove, if_neg hne]; exact hheld
+      exact ih (hnr := hnr') (hheld := hg1)
+
+/-- a history without removals is a serial run: every `runSerial` theorem is a theorem about it -/
+theorem runHist_deliveries (s : Store) (ds : List Delivery) : runHist s (ds.map .deliver) = runSerial s ds := by
+  induction ds generalizing s with
+  | nil => rfl
+  | cons d rest ih => simp only [List.map_cons, runHist, List.foldl_cons, runSerial] at ih ⊢; exact ih _
+
+end Removal
 
 
 /-! Non-vacuity -/
@@ -1643,3 +2009,19 @@ end SafeNet.Props.C07
 #print axioms SafeNet.Props.C07.first_arrival_scratchpad_valid_and_max
 #print axioms SafeNet.Props.C07.store_scratchpad_never_regresses_cached_partial
 #print axioms SafeNet.Props.C07.store_transactions_never_lost_cached_partial
+#print axioms SafeNet.Props.C07.chunk_squats_owner_key_witness
+#print axioms SafeNet.Props.C07.chunk_squats_register_key_witness
+#print axioms SafeNet.Props.C07.chunk_upload_at_held_pad_witness
+#print axioms SafeNet.Props.C07.highestValidPadKept_false
+#print axioms SafeNet.Props.C07.validTransactionsKept_false
+#print axioms SafeNet.Props.C07.validRegisterKept_false
+#print axioms SafeNet.Props.C07.highest_valid_pad_kept_partial
+#print axioms SafeNet.Props.C07.valid_transactions_kept_partial
+#print axioms SafeNet.Props.C07.evicted_then_lower_accepted_witness
+#print axioms SafeNet.Props.C07.storedCounterNeverDecreasesAcrossRemoval_false
+#print axioms SafeNet.Props.C07.evicted_then_set_restarts_witness
+#print axioms SafeNet.Props.C07.hist_scratchpad_never_regresses_partial
+#print axioms SafeNet.Props.C07.hist_transactions_never_lost_partial
+#print axioms SafeNet.Props.C07.hist_register_never_lost_partial
+
+#print axioms SafeNet.Props.C07.unacked_pad_replaced_by_chunk_witness
